@@ -115,6 +115,34 @@ func init() {
 						c.Violation(fmt.Sprintf("gen%d-differs", g), fmt.Sprintf("generation %d differs from generation %d: %s", g, g-1, firstDiff(stripVersionLine(prev), stripVersionLine(gen))), nil, nil)
 					}
 					if g == 1 {
+						// how the tool was linked is no input either: the release way (everything stamped), a dirty tree, a
+						// pseudo-version - the version comment is the only line that may differ
+						for li, ld := range []string{
+							"-X main.version=v1.9.0 -X main.commit=0123abcd -X main.date=2024-05-06T07:08:09Z -X main.builtBy=goreleaser",
+							"-X main.version=1.9.0+build.7 -X main.isGitDirty=true -X main.date=1714979289",
+							"-X main.version=v0.0.0-20231102205301-665205f9fb2c -X main.commit=665205f9fb2c",
+						} {
+							sb := filepath.Join(w.Dir, fmt.Sprintf("tool-stamped%d", li))
+							bc := exec.Command("go", "build", "-ldflags", ld, "-o", sb, ".")
+							bc.Dir = tree
+							if b, err := bc.CombinedOutput(); err != nil {
+								c.Violation("stamped-tool-does-not-build", fmt.Sprintf("go build -ldflags %q: %v\n%s", ld, err, b), nil, nil)
+								continue
+							}
+							so := filepath.Join(w.Dir, "stamped.go")
+							os.Remove(so)
+							sr := exec.Command(sb, "build", "-i", "internal/gontainer/gontainer.yaml", "-i", "internal/gontainer/gontainer_*.yaml", "-o", so)
+							sr.Dir = tree
+							b, err := sr.CombinedOutput()
+							c.Count("generations")
+							c.Count("evaluations_extra")
+							c.Distinct("nontrivial", fmt.Sprintf("stamped%d", li))
+							got, _ := os.ReadFile(so)
+							if err != nil || stripVersionLine(string(got)) != stripVersionLine(gen) {
+								c.Violation("stamped-build-differs", fmt.Sprintf("the tool linked with %q does not reproduce the file (ignoring the version line): %v %s\n%s", ld, err, firstDiff(stripVersionLine(gen), stripVersionLine(string(got))), tailStr(string(b), 800)), nil, nil)
+							}
+							os.Remove(sb)
+						}
 						// the same files in the same merge order, named differently: one -i per file; one glob for all (gontainer.yaml
 						// sorts before gontainer_*.yaml); the Makefile's two patterns with the first one repeated as a dirty path
 						ents, _ := filepath.Glob(filepath.Join(repo, "internal/gontainer/gontainer_*.yaml"))
